@@ -17,6 +17,7 @@ import (
 
 	"github.com/anishathalye/porcupine"
 	"github.com/tmpim/casket"
+	"github.com/tmpim/casket/caskethttp/httpserver"
 	"github.com/tmpim/casket/verifhook"
 	"verifharness/lib"
 )
@@ -173,6 +174,16 @@ func runHistory(c *lib.Ctx, hid, nReloads, W int) {
 		h.prepare(n)
 	}
 	c.Journal("C07 history %d ports %v", hid, ports)
+	// Every third history has clients that stall in the middle of a request
+	// for longer than the (shortened) grace period, on both listeners: the old
+	// servers' graceful stop then times out during each reload, which must not
+	// change the outcome of the reload.
+	stall := hid%3 == 1
+	if stall {
+		httpserver.GracefulTimeout = 300 * time.Millisecond
+		defer func() { httpserver.GracefulTimeout = 5 * time.Second }()
+		c.Count("histories_with_stalled_connections", 1)
+	}
 	inst, err := lib.Start(h.valid(0), filepath.Join(h.dir, "Casketfile"))
 	if err != nil {
 		c.Violation("harness/start", "initial start failed: "+err.Error(), h.valid(0))
@@ -235,6 +246,46 @@ func runHistory(c *lib.Ctx, hid, nReloads, W int) {
 		}(w)
 	}
 
+	if stall {
+		for _, st := range []struct {
+			name string
+			port int
+		}{{"a", h.p1}, {"c", h.p2}} {
+			st := st
+			wg.Add(1)
+			go func() {
+				defer wg.Done()
+				for {
+					select {
+					case <-stop:
+						return
+					default:
+					}
+					k, err := lib.Dial(fmt.Sprintf("127.0.0.1:%d", st.port))
+					if err != nil {
+						time.Sleep(10 * time.Millisecond)
+						continue
+					}
+					// half a request header: the connection is active, not idle
+					k.Raw().Write([]byte(fmt.Sprintf("GET /f3.bin HTTP/1.1\r\nHost: %s.test:%d\r\n", st.name, st.port)))
+					select {
+					case <-stop:
+					case <-time.After(900 * time.Millisecond):
+					}
+					k.Raw().Write([]byte("Connection: close\r\n\r\n"))
+					k.Raw().SetReadDeadline(time.Now().Add(2 * time.Second))
+					buf := make([]byte, 4096)
+					for {
+						if _, err := k.Raw().Read(buf); err != nil {
+							break
+						}
+					}
+					k.Close()
+					c.Count("stalled_requests_completed_or_cut", 1)
+				}
+			}()
+		}
+	}
 	// reloader
 	var reloads []reloadRec
 	cur := 0
